@@ -28,11 +28,14 @@ Definition number (w : list kind) : list tok := combine w (seq 1 (length w)).
 Definition sres := res tok unit unit serr.
 Definition sctx := ctx tok unit unit serr.
 
-Definition run_on (tbl : list st) (stop : bool) (w : list kind) : sres unit :=
-  parse tok unit unit serr s_is_eof s_mk_eof s_matchf s_bstart s_bstart s_bbuild
-        s_same s_unexpected tbl lookaheads error_cap start_state stop (number w) tt tt.
+Definition stub_params (tbl : list st) : params tok unit unit serr :=
+  mk_params tok unit unit serr s_is_eof s_mk_eof s_matchf s_bstart s_bstart s_bbuild
+            s_same s_unexpected tbl Table.lookaheads Table.error_cap Table.start_state.
 
-Definition run := run_on table.
+Definition run_on (tbl : list st) (stop : bool) (w : list kind) : sres unit :=
+  parse (stub_params tbl) stop (number w) tt tt.
+
+Definition run := run_on Table.table.
 
 Definition accepts (w : list kind) : bool :=
   match run false w with Ok _ _ => true | _ => false end.
@@ -40,7 +43,7 @@ Definition accepts (w : list kind) : bool :=
 Definition sev := ev tok.
 Definition run_events (stop : bool) (w : list kind) : option (list sev) :=
   match run stop w with
-  | Ok _ c | Raise1 _ c | RaiseC _ c | Crash c => Some (events _ _ _ _ c)
+  | Ok _ c | Raise1 _ c | RaiseC _ c | Crash c => Some (events c)
   | OutOfFuel => None
   end.
 
